@@ -58,6 +58,20 @@ CHECKS = {
              'of each element must equal that of a database freshly built from the final content.',
         note='The abstract model is edited by mirror functions; histories whose final content cannot be built (two tables with one full name) are skipped and counted. Histories are never merged by content.',
         design='DESIGN.md §3 C10'),
+    'C12': dict(
+        level='exploration', technique='exhaustive configuration product (9 routes x BOM x 5 option sets x document set), differential oracle against the string route',
+        text='Every combination of source route, byte-order mark, option set and document (ASCII, non-ASCII, with properties, empty, comment-only, CRLF, six invalid ones) is executed; content, .sql, .dbml, '
+             'configured renderer classes and the allow_properties flag must equal those of PyDBML(str) with the same options, invalid documents must raise the same exception class on every route, '
+             'a leading BOM must not change anything, and twelve unsupported source types must raise TypeError.',
+        note='Files are written as UTF-8 by the harness into a temporary directory created and removed by the check. parse_file takes no options and is compared under the default option set only.',
+        design='DESIGN.md §3 C12'),
+    'C15': dict(
+        level='model_checking', technique='two-configuration traversal of the C01 derivation BFS (option on / off), exhaustive property placement product x 5 styles, all flag-flip sequences up to length 3',
+        text='Every property-free BFS state and a pack of every C01 product is parsed under both option values and must differ in the flag only; every combination of 0-2 table-body properties at every position and 0-2 column properties '
+             'among 0-2 ordinary settings, with bare / quoted / keyword-like keys and plain / quoted / padded / empty / multi-line values, written in five styles incl. both multi-line layouts, must be stored exactly and in order with the option on, '
+             'round-trip through .dbml (single-line values), and be a syntax error with the option off; every sequence of up to three flag assignments from both initial values on parsed and API-built databases must switch rendering accordingly.',
+        note='Keys spelled note / indexes are that element, not a property. Multi-line values are checked for exact storage only (round trip: recorded finding C02-multiline-settings-text).',
+        design='DESIGN.md §3 C15'),
     'C16': dict(
         level='model_checking', technique='configuration product x routes x attach/detach histories with tagged custom renderers; exactly-once containment on every C01 BFS state; exhaustive render-call sequences with a public-model snapshot after every call',
         text='4x4 renderer configurations on four configuration routes, each with add/delete/re-add histories of every top-level element kind and its columns, decide which class rendered each text; on every well-formed '
